@@ -1,5 +1,5 @@
 """C13 — readers never fail or see garbage while writers are active."""
-import json
+import json, os
 from .. import common, framework, fndiff, cmdrun, gen, oracles, strace, crash, sched
 
 
@@ -17,10 +17,21 @@ def graph_view(g):
     return sorted((t["id"], t["st"], t["claimed_by"], t["title"], t["epic_id"]) for t in g["tasks"])
 
 
-def one_writer(ctx, r):
+def one_writer(ctx, r, symlink=False):
     base, v, trace = crash.build_state(ctx, r, 5 + r.n(8))
     try:
         label, argv, stdin = crash.multi_event_command(r, v)
+        if symlink:
+            # one plan shared between several checkouts: `.ergo/plans.jsonl` is a symbolic link to a file kept elsewhere.  Readers open whatever the
+            # name leads to, so the file behind the link may never be emptied or rewritten in place either
+            os.makedirs(os.path.join(base.root, "shared"), exist_ok=True)
+            os.rename(os.path.join(base.dir, "plans.jsonl"), os.path.join(base.root, "shared", "plans.jsonl"))
+            os.symlink(os.path.join("..", "shared", "plans.jsonl"), os.path.join(base.dir, "plans.jsonl"))
+            trace = trace + [{"edit": ".ergo/plans.jsonl moved to shared/plans.jsonl and replaced by a symbolic link to it"}]
+            for _ in range(200):
+                if label in ("compact", "plan") or (label.startswith("claim") and r.p(20)):
+                    break
+                label, argv, stdin = crash.multi_event_command(r, v)
         env = {"VERIF_RAND": str(r.next() % (1 << 40))}
         pre = base.graph()
         done = crash.clone(base)
@@ -177,6 +188,9 @@ def reader_shape(ctx):
 
 
 def run(ctx):
+    rs = gen.Rng(ctx.seed * 1000003 + 1313)
+    for i in range(2 if ctx.quick else 30):
+        one_writer(ctx, rs.fork(), symlink=True)
     import os
     os.environ["GOGC"] = "1"      # stress the Go runtime: collections (and finalizers) inside every lock section
     framework.check_facts(ctx, ctx.facts, ["with_lock", "lock_sites", "writer_calls", "truncate_sites"])
